@@ -210,7 +210,7 @@ Lemma witness_run :
   /\ wf_C09 MODE_DB 0 true [0] f [Query 0 (bs "a"%bs) (Some (Some 3%Z, Some 8%Z))] = true
   /\ out (run_C09 MODE_DB 0 true [0] f [Query 0 (bs "a"%bs) (Some (Some 3%Z, Some 8%Z)); Query 0 (bs "a"%bs) (Some (Some 9%Z, Some 30%Z));
                                      Query 0 (bs "a"%bs) (Some (Some 20%Z, Some 30%Z))])
-     = out (VL [VB true; VL [VL [VI 44; VI 3386509425]];
+     = out (VL [VB true; VL [VL [VI 44; VI 3386509425; VL [VL [VS (bs "p"%bs); VS (bs "p"%bs); VS (bs "TT"%bs)]; VL [VS (bs "a"%bs); VS (bs "a d"%bs); VS (bs "ACGTACGTACGT"%bs)]; VL [VS (bs "q"%bs); VS (bs "q"%bs); VS (bs "GGGG"%bs)]]]];
                 VL [VI 3; VL [VL [VS (bs "a"%bs); VS (bs "a d"%bs); VS (bs "TACGT"%bs)];
                               VL [VS (bs "a"%bs); VS (bs "a d"%bs); VS (bs "CGT"%bs)];
                               VL [VS (bs "a"%bs); VS (bs "a d"%bs); VS []]]]]).
